@@ -83,6 +83,8 @@ def judge(run: Run, stream, case, before, after, res, model):
     run.case(stream, case, len([n for n in nss if n]) >= 2)
     run.count("namespaces in tree", len(nss))
     run.count("decls", "none" if case["decls"] is None else len(case["decls"]))
+    run.count("format", "none" if not case.get("fmt") else f"width={case['fmt']['width']} align={case['fmt']['align']}")
+    run.count("root xml:space", next((a[2] for a in before[3] if a[0] == trees.XML_NS and a[1] == "space"), "absent"))
     if "err" in res:
         if res["err"] == "ValueError" and (model is None or "nsmap_err" in model):
             run.count("outcome", "mapping rejected")
@@ -115,6 +117,25 @@ def judge(run: Run, stream, case, before, after, res, model):
     nsmap.pop("xml", None)
     if nsmap != model_map(model["prefixes"]):
         run.mismatch(stream, case, nsmap, model_map(model["prefixes"]), "declared prefixes differ")
+
+
+def gen_case(rng):
+    """the shared serialization case; "in every serialization" includes the formatted ones, so 40 % of the cases carry
+    format options (the declarations and prefixes must be the same) and some roots an xml:space attribute"""
+    c = S.gen_case(rng)
+    if rng.random() < 0.4:
+        c["fmt"] = {"align": rng.random() < 0.4, "indent": rng.choice(["", "  ", "\t"]), "width": rng.choice([0, 0, 20, 60])}
+    if rng.random() < 0.2:
+        value = rng.choice(["preserve", "preserve", "default"])
+        if c["how"] == "api":
+            t = c["tree"]
+            if not any(a[0] == trees.XML_NS for a in t[3]):
+                t[3].append([trees.XML_NS, "space", value])
+        elif "xml:space=" not in c["xml"]:
+            i = S.first_tag_end(c["xml"])
+            j = i - 2 if c["xml"][i - 2] == "/" else i - 1
+            c["xml"] = c["xml"][:j] + f' xml:space="{value}"' + c["xml"][j:]
+    return c
 
 
 def run_cases(run: Run, cases, stream, lean_ok=True):
@@ -164,13 +185,13 @@ def check(run: Run, lean: dict) -> int:
             print(f"KNOWN-FINDING: property=C13 {f['key']}: {f['description']}")
             run.known_hit.append(f["key"])
     run_cases(run, corpus(), "corpus", ok)
-    run_cases(run, [S.gen_case(run.rng) for _ in range(n)], "generated", ok)
+    run_cases(run, [gen_case(run.rng) for _ in range(n)], "generated", ok)
     return run.finish(lean, LEVEL, ASSUME, search=search)
 
 
 def search(run: Run):
     probe = Run(run.prop, run.tier, run.seed)
-    cands = [m["case"] for m in run.mismatches] + corpus() + [S.gen_case(run.rng) for _ in range(15000)]
+    cands = [m["case"] for m in run.mismatches] + corpus() + [gen_case(run.rng) for _ in range(15000)]
     for c in cands:
         try:
             before, after, res = S.run_impl(c)
